@@ -97,6 +97,22 @@ class Scheduler:
             self.policy.consumed(me)
             self.trace.append((me, label))
 
+    def point(self, label: str) -> None:
+        """Extra yield point for shared in-memory state (called by harness-side wrappers of
+        thread-safe engine objects, never while one of their locks is held)."""
+        me = self._me()
+        if me is None:
+            return
+        with self.cv:
+            self.steps[me] += 1
+            ready = self._runnable()
+            nxt = self.policy.choose(self, me, ready, label)
+            if nxt not in ready:
+                nxt = me
+            self._handover(me, nxt)
+            self.policy.consumed(me)
+            self.trace.append((me, label))
+
     def commit_event(self, conn) -> None:
         """After any commit / rollback: lock waiters and idle workers may run again."""
         with self.cv:
@@ -466,7 +482,7 @@ def solo_length(start_db: str, row: int, events: bool = False) -> int:
 # ---------------------------------------------------------------------------
 
 
-def run_workers(spec: dict, nworkers: int, policy: Policy, *, events: bool = False, max_msgs: int = 600, extra_bodies: dict | None = None, pre_hook=None, start_db: str | None = None, watchdog: float = 90.0):
+def run_workers(spec: dict, nworkers: int, policy: Policy, *, events: bool = False, max_msgs: int = 600, extra_bodies: dict | None = None, pre_hook=None, start_db: str | None = None, watchdog: float = 90.0, world_kw: dict | None = None, ack_fn=None, records: list | None = None, with_sched=None):
     """N worker threads, each looping poll_one -> _handle_message -> ack on the shared
     database, interleaved at statement granularity.  Idle workers park; when every worker
     is idle and only delayed rows remain, the earliest one is warped (virtual time)."""
@@ -474,16 +490,18 @@ def run_workers(spec: dict, nworkers: int, policy: Policy, *, events: bool = Fal
     from .world import PAST, World
 
     prepare_env()
+    world_kw = world_kw or {}
     if start_db:
-        w = copy_world(start_db, events=events)
+        w = copy_world(start_db, events=events, **world_kw)
         w.wf_id = w._exec_side("SELECT id FROM pipeline_executions ORDER BY created_at LIMIT 1").fetchone()[0]
     else:
-        w = World(events=events)
+        w = World(events=events, **world_kw)
         w.submit(spec)
     if pre_hook:
         pre_hook(w)
     w.errors = []
     sched = Scheduler(policy, watchdog=watchdog)
+    undo = with_sched(sched, w) if with_sched else None
     w.commit_listeners.append(lambda world, idx, conn: sched.commit_event(conn))
     handled = [0]
     idle: set[str] = set()
@@ -493,6 +511,7 @@ def run_workers(spec: dict, nworkers: int, policy: Policy, *, events: bool = Fal
     def loop() -> None:
         me = threading.current_thread().name
         while not stop[0] and handled[0] < max_msgs:
+            pre_seq = w.max_seq() if records is not None else 0
             try:
                 msg = w.queue.poll_one()
             except Exception as e:  # QueueProcessor._poll_loop logs and polls again
@@ -542,12 +561,37 @@ def run_workers(spec: dict, nworkers: int, policy: Policy, *, events: bool = Fal
                 continue
             idle.discard(me)
             handled[0] += 1
-            worker_body(w, msg)()
+            ack = True if ack_fn is None else bool(ack_fn(w, msg))
+            rec = None
+            if records is not None:
+                mid = msg.message_id
+                rec = {"thread": me, "polled": mid, "type": type(msg).__name__, "pre_seq": pre_seq, "calls_before": sum(1 for c in w.handler_calls if c[0] == mid), "ack": ack}
+            worker_body(w, msg, ack=ack)()
+            if rec is not None:
+                rec["handled"] = sum(1 for c in w.handler_calls if c[0] == rec["polled"]) > rec["calls_before"]
+                records.append(rec)
+            if not ack:
+                # the worker "forgot" the message: its visibility lock runs out (through the worker's
+                # own connection, so a lock conflict parks this thread like any other statement)
+                try:
+                    c = w.queue._get_connection()
+                    c.execute("UPDATE queue_messages SET locked_until = NULL WHERE message_id = ?", (msg.message_id,))
+                    c.commit()
+                except Exception as e:
+                    w.errors.append((me, "lapse", f"{type(e).__name__}: {e}"))
+                    try:
+                        w.queue._get_connection().rollback()
+                    except Exception:
+                        pass
 
     bodies: dict[str, Callable[[], None]] = {n: loop for n in names}
     for name, mk in (extra_bodies or {}).items():
         bodies[name] = mk(w, stop)
-    sched.run(bodies)
+    try:
+        sched.run(bodies)
+    finally:
+        if undo:
+            undo()
     info = {
         "trace_hash": sched.trace_hash(),
         "switches": sched.switches,
